@@ -1,4 +1,4 @@
-# The prompt given to the independent sub-agents of the last seeded-change round (round 14): the property text
+# The prompt given to the independent sub-agents of the last seeded-change round (round 15): the property text
 # (here read from /tmp/prop-<ID>.txt, a copy of the "statement"/"quantifier" of properties.jsonl), the mechanisms of all
 # earlier rounds to avoid, and the procedure.  Nothing from /verif was given to them.  usage: seeded_agent_prompt.py <ID>
 import sys
@@ -46,7 +46,10 @@ prev={
 - MESSAGEBYTES_MAX macro counts blocks instead of bytes
 - pull: MAC compared as two 64-bit words whose differences are folded with XOR
 - push+pull: XOR of the MAC into the inner nonce moved after the increment/ratchet step
-- rekey(): the 40 bytes to ratchet read straight from the state (k || counter || inonce[0..3])""",
+- rekey(): the 40 bytes to ratchet read straight from the state (k || counter || inonce[0..3])
+- a key argument that is not 16-byte aligned: HChaCha20 loads the key halves with aligned SSE moves
+- one chunk with at least 4 GiB of associated data: the AD length is stored in the MAC input as 32 bits (push and pull alike)
+- the portable ChaCha20 back end and a single chunk larger than 4 GiB: `(unsigned int) bytes <= 64` ends the block loop after the first r bytes""",
 "C17":"""- _sodium_malloc: unprotected_size rounding differs from the pointer placement when size+16 is a page multiple
 - sodium_free: canary compared as two 64-bit XORs truncated to int
 - _sodium_mprotect: static (last_ptr,last_cb) cache never invalidated by free
@@ -88,7 +91,10 @@ prev={
 - _alloc_aligned: MAP_SHARED instead of MAP_PRIVATE
 - _alloc_aligned: requests above PTRDIFF_MAX rejected without setting errno
 - guard pages installed with an unchecked madvise(MADV_GUARD_INSTALL) probed once at init
-- _sodium_malloc: an mlock() failure tolerated only for ENOMEM/EAGAIN""",
+- _sodium_malloc: an mlock() failure tolerated only for ENOMEM/EAGAIN
+- a last no-access transition not followed by readwrite, then fork(): MADV_DONTFORK is set on no-access and only undone by readwrite
+- mlock() failing for the allocation, then a readonly/readwrite call: the 'not locked' flag lives in the low bit of the size word that _sodium_mprotect uses as a length, so the trailing guard page is opened too
+- sodium_allocarray(2^63+1, 2^63+1) (or 2^63, 2^63): a 'small factors' shortcut tests the wrapped sum of the factors""",
 "C18":"""- randombytes_uniform: threshold reduction skipped for n >= 2^31 (wrong for exactly 2^31)
 - randombytes_close: resets the implementation pointer so the default source is silently reinstalled
 - sysrandom safe_read: every chunk written at the start of the buffer after a short read
@@ -130,7 +136,10 @@ prev={
 - crypto_core_ristretto255_scalar_random: own copy of the rejection loop without the zero test
 - internal generator: pid bookkeeping helper shared by stir() and stir_if_needed() (child's pid recorded while the fork is reported)
 - scrypt _str: static `setting` buffer
-- internal generator: S_ISNAM fallback macro defined as 1""",
+- internal generator: S_ISNAM fallback macro defined as 1
+- a request above 256 bytes from the default source and a signal: getrandom is asked for up to 32 MiB at once and a short count is fatal
+- draws at (2^32 mod n) - 1, or small draws with a power-of-two bound: the rejection threshold is computed from 2^32-1
+- errno == EAGAIN left behind by an unrelated call: a lost pair of parentheses makes the getrandom retry loop consult errno after success and spin for ever""",
 "C19":"""- sodium_init: unlocked fast path plus initialized=1 moved to the start of the critical section
 - randombytes_uniform: rejection threshold memoised in two function-level statics
 - utils.c: canary drawn lazily by the first sodium_malloc behind a plain static flag
@@ -172,7 +181,10 @@ prev={
 - pthread_atfork handlers for the library lock installed behind a thread-local once-flag
 - sodium_crit_enter/leave: signals blocked around the lock, old mask saved in one file-level static
 - sodium_init latches `initialized` only if every pick-best function returned 0; AEGIS pickers return 1 on the software path
-- internal generator: global generation counter bumped by close() and compared on every draw""",
+- internal generator: global generation counter bumped by close() and compared on every draw
+- at least two threads inside sodium_init() before the first finishes: the return value is sampled from `initialized` before the lock is taken
+- getrandom() failing on the first sodium_init(): the /dev/urandom fallback takes the (non-recursive) library lock that sodium_init already holds
+- two threads with live guarded allocations, one allocating while the other's free brings an unsynchronised live-region count to zero (the canary is re-drawn)""",
 "C20":"""- argon2-core allocate_memory: *region published before mmap and not reset to NULL on failure (use-after-free / stray munmap)
 - argon2_verify: single cleanup label with ret initialised to ARGON2_OK (verify reports a match when the 4th malloc fails)
 - utils.c _alloc_aligned: MAP_FAILED no longer converted to NULL
@@ -215,7 +227,10 @@ prev={
 - new escrypt_grow_region() helper returns 1 on failure while callers test < 0
 - argon2_initialize: pseudo_rands obtained with posix_memalign, failure still tested with == NULL
 - allocate_memory: free(region) instead of free(*region) on the mmap-failure exit
-- allocate_memory: descriptor built in a local and published only on success, never freed on the failure exit""",
+- allocate_memory: descriptor built in a local and published only on success, never freed on the failure exit
+- a realloc request (heap requests 5-7 of a string verification) failing: unchecked `x = realloc(x, len)` shrinks
+- memory refused at commit time (mprotect to read-write failing) instead of at mapping time: the region is mapped PROT_NONE and opened with an unchecked mprotect
+- out and passwd being the same buffer (refused with EINVAL on the unchanged tree) and an allocation at position 2-5 failing: the private password copy is leaked through an untouched early return""",
 }[pid]
 hints={
 "C09":"Look beyond the obvious control flow of push/pull: the helpers they rely on (sodium_increment, sodium_is_zero, XOR_BUF, STORE64_LE, crypto_stream_chacha20_ietf_xor_ic and its SIMD back ends for particular length ranges or block-counter values, crypto_core_hchacha20, the SSE2 Poly1305 for particular message-length classes), optional out-parameters (NULL outlen_p/mlen_p/tag_p), NULL ad with adlen 0, messages of unusual sizes (zero, exactly one block, many blocks, tens of kilobytes), long streams, FINAL/PUSH tag handling, behaviour of a state that was copied or restored.",
@@ -224,32 +239,32 @@ hints={
 "C19":"Look beyond sodium_init itself: state that is read by every call and written late or lazily, per-backend dispatch pointers, the internal generator's thread-local stream and its global part, the spin-lock variant of the critical section, guarded allocation's page_size/canary statics, helper functions that could keep a static scratch buffer or cache, lock release paths on error returns, double initialisation effects that only show when a guarded allocation made before is freed later.",
 "C20":"Look beyond the Argon2 happy-path allocations: the scrypt region growth/free logic (escrypt_local reuse, escrypt_free_region on the error path, the size bookkeeping), crypto_pwhash_str_needs_rehash, string verification of malformed/foreign strings under allocation failure, the alg dispatchers in crypto_pwhash.c, errno handling, cleanup ordering (sodium_memzero before free), the posix_memalign/malloc fallback branches are not compiled on this platform so prefer code that is.",
 }[pid]
-print(f"""You are helping to evaluate a verification tool by producing realistic *defective variants* of the libsodium C library (jedisct1/libsodium). You work ONLY inside your own scratch git worktree at /tmp/wt14-{pid} (a full, already-configured and already-built copy of the repository: `make -j8 check` works there and currently passes all 82 tests). Do NOT read, write or run anything under /repo or /verif, and do not look at other /tmp/wt* directories.
+print(f"""You are helping to evaluate a verification tool by producing realistic *defective variants* of the libsodium C library (jedisct1/libsodium). You work ONLY inside your own scratch git worktree at /tmp/wt15-{pid} (a full, already-configured and already-built copy of the repository: `make -j8 check` works there and currently passes all 82 tests). Do NOT read, write or run anything under /repo or /verif, and do not look at other /tmp/wt* directories.
 
 Here is a semantic property that the library is supposed to satisfy:
 
 ---
 {prop}---
 
-Your task: produce THREE different, independent source changes to libsodium (each one a separate small patch against the worktree's HEAD) such that each change
-  (a) still compiles (`make -j8` in /tmp/wt14-{pid}),
-  (b) still passes the complete existing test suite, unedited (`make -j8 check` in /tmp/wt14-{pid} reports 82 passing, 0 failing/erroring),
+Your task: produce TWO different, independent source changes to libsodium (each one a separate small patch against the worktree's HEAD) such that each change
+  (a) still compiles (`make -j8` in /tmp/wt15-{pid}),
+  (b) still passes the complete existing test suite, unedited (`make -j8 check` in /tmp/wt15-{pid} reports 82 passing, 0 failing/erroring),
   (c) BREAKS the property above, and
   (d) is HARD to notice: it needs something specific in order to manifest — a particular interleaving, a fault (failed allocation / system call returning an error or a short count) at a particular point, a multi-step sequence of operations, an unusual input size/value/boundary, a particular CPU-feature/backend path, a particular state carried over from an earlier call, or two cooperating sites that each look fine alone.
 
-Thirteen previous rounds already produced the following changes for this property; do NOT repeat these mechanisms or close variations of them, find genuinely different ones:
+Fourteen previous rounds already produced the following changes for this property; do NOT repeat these mechanisms or close variations of them, find genuinely different ones:
 {prev}
 
 Suggestions for where to look this time (you need not follow them): {hints}
 
 The earlier rounds have covered the obvious and many non-obvious places; this time you will have to dig deeper. Read the code paths end to end (including the functions the anchored files call into, in other directories) and look for the places nobody has touched yet. Prefer mechanisms of these kinds this time: changes in shared helper macros/inline functions in private headers (common.h LOAD/STORE/ROTL/XOR_BUF, sodium_memcmp/sodium_is_zero/sodium_increment helpers) that only bite for particular lengths or alignments; glue code between the C dispatchers and their SIMD/assembly back ends; compile-time constants; integer-width or signedness slips that need large or boundary values; behaviour that depends on what an EARLIER, unrelated call left behind (errno, a static, a descriptor, a thread-local); state that is carried from one call to a later call (or from one object to another); code that only runs for a rarely used API variant, parameter combination or non-default CPU back end; error paths that are only reached after an earlier step succeeded; two or three cooperating edits that are each harmless alone; boundary values that are not the obvious ones. Aim for changes that a careful reviewer could plausibly miss and that a checker which only exercises the most common paths, small sizes, a single backend or a single call sequence would miss. Think like a plausible maintainer mistake or refactoring slip. For this round in particular, consider: (i) interactions between two live objects (two states, two allocations, two threads' buffers) or two API families that share code; (ii) what remains true AFTER an error return or a rejected input (is the object / the library still usable and consistent?); (iii) fork(), signals and EINTR, errno values left behind, descriptors; (iv) degenerate or extreme arguments (0, 1, SIZE_MAX, lengths above 4 GiB, NULL where the prototype allows it, outputs aliasing inputs where the documentation allows it); (v) rarely used public entry points, legacy wrappers and per-algorithm variants that reach the same code by another route; (vi) behaviour that differs between an optimised and an unoptimised build, or between the first call in a process and later calls.
 
-For each change k = 1..3, create the directory /tmp/wt14-{pid}/_out/k/ containing:
+For each change k = 1..2, create the directory /tmp/wt15-{pid}/_out/k/ containing:
   - patch.diff   : output of `git diff` for that change alone (it must apply with `git apply` to a clean checkout of HEAD),
   - demo.c (or demo.cpp) + run_demo.sh : a small self-contained demonstration program and the exact script to build and run it against the worktree's library (use include path src/libsodium/include and link src/libsodium/.libs/libsodium.a with -lpthread; you may use -Wl,--wrap, threads, fork, signal handlers, custom randombytes implementations, etc.). run_demo.sh must exit 0 and print PASS on the UNCHANGED tree, and exit non-zero and print FAIL when the change is applied (after rebuilding the library). If a violation is inherently probabilistic (e.g. a race), make the demo as reliable as you can and say how reliable it is,
   - notes.md     : which clause of the property it breaks, what exactly is needed for it to manifest, why the existing tests do not notice, and the commands you ran with their results.
 
-Procedure for each change: start from a clean tree (`git -C /tmp/wt14-{pid} checkout -- .`; the _out directory is untracked and survives), edit, `make -j8 check 2>&1 | grep -E '^# (TOTAL|PASS|FAIL|ERROR)'`, confirm 82 pass, rebuild and run the demo (must FAIL), save the patch, revert the sources, rebuild (`make -j8`), run the demo again (must PASS). Leave the worktree with clean tracked sources at the end (only _out/ added). Verify each patch applies cleanly with `git apply --check` on the clean tree.
+Procedure for each change: start from a clean tree (`git -C /tmp/wt15-{pid} checkout -- .`; the _out directory is untracked and survives), edit, `make -j8 check 2>&1 | grep -E '^# (TOTAL|PASS|FAIL|ERROR)'`, confirm 82 pass, rebuild and run the demo (must FAIL), save the patch, revert the sources, rebuild (`make -j8`), run the demo again (must PASS). Leave the worktree with clean tracked sources at the end (only _out/ added). Verify each patch applies cleanly with `git apply --check` on the clean tree.
 
 Constraints: no network. Do not modify anything under test/. Do not add new source files to the build system (edit existing .c/.h files only). Keep each patch small (ideally under ~30 changed lines). The build uses -D flags from ./configure for x86_64 Linux with pthreads, mmap, mprotect, getrandom; the CPU supports AVX2/AVX512.
 
